@@ -7,6 +7,7 @@ float mode ``ex`` is a :class:`FloatCtx`: the same harness is run once on IEEE d
 taken from a counterexample model (replay).
 """
 import math
+import os
 import time
 import itertools
 from fractions import Fraction
@@ -468,7 +469,7 @@ def _guard_div(d):
             raise ZeroDivisionError('symbolic run: division by literal zero')
         return
     c = CUR
-    if c is not None and c.sym:
+    if c is not None and c.sym and getattr(c, 'div_policy', 'cut') == 'cut':
         c.assume_div(d)
 
 
@@ -515,6 +516,7 @@ class Stats:
         self.assumes = []
         self.samples = []
         self.label_s = {}
+        self.assumed_feasible = 0
 
 
 class Explorer:
@@ -523,6 +525,7 @@ class Explorer:
 
     def __init__(self, timeout_ms=20000, max_paths=20000, max_concretize=64, seed=0):
         self.timeout_ms = timeout_ms
+        self.branch_ms = int(os.environ.get('SYMX_BRANCH_MS', '1000'))
         self.max_paths = max_paths
         self.max_concretize = max_concretize
         self.stats = Stats()
@@ -531,6 +534,8 @@ class Explorer:
         self.seed = seed
         self._n = 0
         self._assume_notes = set()
+        self.lits = {}
+        self.last_model = None
 
     # ---- running
     def explore(self, fn):
@@ -548,6 +553,8 @@ class Explorer:
             self._fresh = 0
             self.memo = {}
             self.path_cex = []
+            self.lits = {}
+            self.last_model = None
             self.solver.push()
             prev = CUR
             CUR = self
@@ -582,7 +589,7 @@ class Explorer:
 
     def _decide(self, neg):
         """portfolio for an obligation: incremental solver (short), nlsat tactic on the whole goal, incremental (full)"""
-        fast = min(2000, self.timeout_ms)
+        fast = min(int(os.environ.get("SYMX_FAST_MS", "300")), self.timeout_ms)
         self.solver.set('timeout', fast)
         try:
             r = self._check(neg)
@@ -613,6 +620,8 @@ class Explorer:
     def _add(self, c):
         self.pc.append(c)
         self.solver.add(c)
+        if self.last_model is not None and self._model_says(c) is not True:
+            self.last_model = None
 
     def assume(self, c, note=None):
         if isinstance(c, B):
@@ -633,38 +642,76 @@ class Explorer:
     def feasible(self):
         return self._check() != 'unsat'
 
+    def _model_says(self, cond):
+        """does the cached model of the path condition satisfy cond?  (None when there is no usable model)"""
+        m = self.last_model
+        if m is None:
+            return None
+        try:
+            v = m.eval(cond, model_completion=True)
+        except z3.Z3Exception:
+            return None
+        if z3.is_true(v):
+            return True
+        if z3.is_false(v):
+            return False
+        return None
+
+    def _feasible_with(self, cond):
+        self.solver.set('timeout', self.branch_ms)
+        try:
+            r = self._check(cond)
+        finally:
+            self.solver.set('timeout', self.timeout_ms)
+        if r == 'unknown':
+            # undecided within the branch budget: explore the side anyway (a superset of the feasible paths is sound:
+            # obligations on an infeasible path are vacuous, and a counterexample always comes with a model)
+            self.stats.q_unknown -= 1
+            self.stats.assumed_feasible += 1
+        if r == 'sat':
+            try:
+                self.last_model = self.solver.model()
+            except z3.Z3Exception:
+                self.last_model = None
+        return r
+
     def branch(self, cond):
+        k = cond.get_id()
+        if k in self.lits:
+            return self.lits[k]
         if self.pos < len(self.decisions):
             d = self.decisions[self.pos]
             self.pos += 1
             if d[0] != 'b':
                 raise HarnessError('non-deterministic replay of decisions')
             self._add(cond if d[1] else z3.Not(cond))
+            self.lits[k] = d[1]
             return d[1]
-        rt = self._check(cond)
-        rf = self._check(z3.Not(cond))
+        ms = self._model_says(cond)
+        if ms is True:
+            rt, rf = 'sat', self._feasible_with(z3.Not(cond))
+        elif ms is False:
+            rt, rf = self._feasible_with(cond), 'sat'
+        else:
+            rt = self._feasible_with(cond)
+            rf = self._feasible_with(z3.Not(cond)) if rt != 'unsat' else 'sat'
         t = rt != 'unsat'
         f = rf != 'unsat'
-        if rt == 'unknown' or rf == 'unknown':
-            self.stats.unknowns.append('branch-feasibility')
         if t and f:
             self.stats.forks += 1
             self.new_alts.append(self.decisions[:self.pos] + [('b', False)])
-            self.decisions.append(('b', True))
-            self.pos += 1
-            self._add(cond)
-            return True
-        if t:
-            self.decisions.append(('b', True))
-            self.pos += 1
-            self._add(cond)
-            return True
-        if f:
-            self.decisions.append(('b', False))
-            self.pos += 1
-            self._add(z3.Not(cond))
-            return False
-        raise Abort()
+            d = True
+        elif t:
+            d = True
+        elif f:
+            d = False
+        else:
+            raise Abort()
+        self.decisions.append(('b', d))
+        self.pos += 1
+        self._add(cond if d else z3.Not(cond))
+        self.lits[k] = d
+        return d
 
     def concretize(self, term):
         """fork over the feasible integer values of `term`"""
@@ -804,15 +851,40 @@ class Explorer:
         if len(self.stats.samples) < 6:
             self.stats.samples.append(obj)
 
-    def lemma(self, cond, label):
+    def lemma(self, cond, label, using=None):
         """cut rule: prove `cond` under the path condition, then add it as a fact for later obligations"""
-        ok = self.prove(cond, 'lemma:' + label)
+        ok = self.prove(cond, 'lemma:' + label, using=using)
         if ok and not isinstance(cond, bool):
             self._add(lift_bool(cond))
         return ok
 
-    def prove(self, cond, label, info=None):
-        """obligation: under the current path condition `cond` holds for all values"""
+    def prove(self, cond, label, info=None, using=None):
+        """obligation: under the current path condition `cond` holds for all values.
+        using=[facts]: modular step - first try to derive cond from these facts alone (each must already be part of the
+        path condition or a proved lemma; weakening the hypotheses is sound for an unsat answer)"""
+        if using is not None and not isinstance(cond, bool):
+            t0 = time.time()
+            r = 'unknown'
+            for mk, tmo in ((z3.Solver, 1000), (lambda: z3.SolverFor('QF_NRA'), self.timeout_ms)):
+                try:
+                    s2 = mk()
+                    s2.set('timeout', tmo)
+                    for u in using:
+                        if not isinstance(u, bool):
+                            s2.add(lift_bool(u))
+                    s2.add(z3.Not(lift_bool(cond)))
+                    r = str(s2.check())
+                except z3.Z3Exception:
+                    r = 'unknown'
+                if r == 'unsat':
+                    break
+            dt = time.time() - t0
+            self.stats.solver_s += dt
+            self.stats.label_s[label] = self.stats.label_s.get(label, 0.0) + dt
+            if r == 'unsat':
+                self.stats.q_unsat += 1
+                self.stats.proved[label] = self.stats.proved.get(label, 0) + 1
+                return True
         if isinstance(cond, bool):
             if cond:
                 self.stats.proved[label] = self.stats.proved.get(label, 0) + 1
@@ -993,10 +1065,10 @@ class FloatCtx:
     def sample(self, obj):
         pass
 
-    def lemma(self, cond, label):
+    def lemma(self, cond, label, using=None):
         return self.prove(cond, 'lemma:' + label)
 
-    def prove(self, cond, label, info=None):
+    def prove(self, cond, label, info=None, using=None):
         if bool(cond):
             self.passed.append(label)
             return True
